@@ -2,7 +2,7 @@ SPECIFICATION Spec
 CONSTANTS
   MaxLen = 3
   Pool = "small"
-  Classes = {"noColon", "nonNumeric", "emptyValue", "zero", "negative", "overflow", "overflow32",
+  Classes = {"noColon", "nonNumeric", "emptyValue", "zero", "negative", "overflow", "overflow32", "len10", "len12", "len15", "len19", "len20",
              "missing", "missingOther", "lenShort", "lenLong",
              "extraBefore", "extraAfter", "lfOnly", "noSpace", "plusSign", "leadZero", "dupLen", "leadSpace",
              "lowerName", "spaceColon",
